@@ -8,7 +8,7 @@ LEAN_MODULES = ["MpirProofs.Props.C09"]
 THEOREMS = ["Mpir.Root.perfsqr_filters_sound", "Mpir.Root.perfect_square_p_iff", "Mpir.Root.sqrtrem_normalise_ok",
             "Mpir.Root.mpz_root_sign_flag", "Mpir.Root.sqrtrem1_spec", "Mpir.Root.sqrtrem2_spec'", "Mpir.Root.dc_sqrtrem_spec", "Mpir.Root.mpn_sqrtrem_spec",
             "Mpir.Root.mpn_perfect_square_p_spec", "Mpir.Root.mpz_sqrt_spec", "Mpir.Root.root_final_adjust",
-            "Mpir.Root.perfect_power_p_iff_partial"]
+            "Mpir.Root.perfect_power_p_iff_partial", "Mpir.Root.mpz_root_huge_index"]
 GEN = [gen_sqrt_tabs]
 TRUSTED = ["hand-written models lean/Mpir/Model/Root.lean: word level for mpn_sqrtrem1/2, mod_34lsub1 and the PERFSQR tests, "
            "value level for mpn_dc_sqrtrem, mpn_sqrtrem, mpn_rootrem(_basecase/_internal), mpz wrappers, perfpow.c "
@@ -16,18 +16,20 @@ TRUSTED = ["hand-written models lean/Mpir/Model/Root.lean: word level for mpn_sq
            "translator tools/gen_sqrt_tabs.py (approx_tab, sq_res_0x100, PERFSQR_MOD_TEST constants after gcc -E, perfpow primes[])",
            "mpn_rootrem: the Newton iterations (rootrem.c, rootrem_basecase.c) are modelled and run differentially only; theorems about "
            "mpz_root/mpz_rootrem/mpz_perfect_power_p take the contract of mpn_rootrem (RootremSpec) as a hypothesis; "
-           "only the final adjustment is proved (root_final_adjust)"]
+           "only the final adjustment (root_final_adjust) and the root-is-1 exit (mpz_root_huge_index, unconditional for "
+           "n >= bit length of |u|) are proved"]
 ASSUMPTIONS = ["the driver answers with the specification (Nat.sqrt, bitwise iroot, exhaustive-exponent perfect-power search) and asserts "
                "model == specification on every op (`!modelspec`)",
                "mpn_sqrtrem1, mpn_sqrtrem2, mpn_dc_sqrtrem are static: reached through mpn_sqrtrem with 1, 2 and more limbs",
                "mpz_perfect_power_p: only soundness is proved (perfect_power_p_iff_partial); completeness is differential",
                "exceptions: errno.c __gmp_exception ignores its error_bit, so SQRT_OF_NEGATIVE and DIVIDE_BY_ZERO are both observed as SIGFPE (`!fpe`)",
-               "not exercised because they do not terminate / abort (reported as findings): mpn_perfect_square_p with a zero most significant limb; "
-               "mpz_root/mpz_nthroot/mpz_rootrem with an operand of >= ROOTREM_THRESHOLD limbs and n >= ~2^40 (temporary of 0.585*n/64 limbs)"]
+               "repaired defects 4290b4f (huge root index on operands of >= 6 limbs) and f2f94e8 (mpn_perfect_square_p on unnormalised "
+               "vectors) are exercised by the default generator and the corpus under a 20 s watchdog (`!hang`)"]
 RULE = ("u = k^n-1, k^n, k^n+1 for all k < 2^12 (sampled in the quick tier) x n <= 70 incl. n = 2 through every sqrt/root/perfect-* entry point; "
         "large k with roots all-ones / 2^j / 2^j-1 / long one-runs; limb counts 1..40 odd and even then sparse to 2000 (thorough); "
         "every normalisation shift 0..63 of mpn_sqrtrem; n from 1 to beyond the bit length; negative u; 0, 1; "
-        "non-squares passing every residue filter (CRT-constructed); all aliasing modes; distinct = distinct op lines")
+        "non-squares passing every residue filter (CRT-constructed); all aliasing modes; root index 2^32, 2^44, 2^63, ULONG_MAX on operands of 5..40 limbs; "
+        "mpn_perfect_square_p on vectors with 1-3 zero high limbs and all-zero vectors; distinct = distinct op lines")
 
 FILTER_MODS = [256, 91, 85, 9, 97]          # informational: the CRT construction reads the moduli from the generated table
 
@@ -198,6 +200,38 @@ def gen_ops(rng, tier, ctx=None):
         yield "mpz_root 2 %s %x" % (hx(p + rng.choice([-1, 1])), k)
         if k % 2 == 1 and rng.random() < 0.3: yield "mpz_root 0 %s %x" % (hx(-p), k)
         if p.bit_length() < 2600 and rng.random() < 0.2: yield "mpz_perfect_power_p %s" % hx(rng.choice([p, -p]))
+    # ---- repaired defect 4290b4f: operands of >= ROOTREM_THRESHOLD limbs with a huge root index (the temporaries of
+    #      mpn_rootrem_internal grow with the index; the root-is-1 exit must come first).  Watchdog in the harness op.
+    huge = [1 << 32, (1 << 32) + 1, 1 << 44, (1 << 44) - 1, 1 << 63, (1 << 63) + 1, (1 << 64) - 1, (1 << 64) - 2]
+    for nl in [5, 6, 7, 8, 12, 40] + ([] if quick else [100, 500]):
+        for _ in range(2):
+            u = 0
+            for i, x in enumerate(rand_limbs(rng, nl, rng.choice(["uniform", "runs", "ones", "top", "onebit"]))): u |= x << (64 * i)
+            u |= 1 << (64 * (nl - 1) + rng.randrange(64))
+            for n in huge:
+                yield "mpz_root %d %s %x" % (rng.randrange(3), hx(u), n)
+                yield "mpz_nthroot %d %s %x" % (rng.randrange(2), hx(u), n)
+                yield "mpz_rootrem %d %s %x" % (rng.randrange(3), hx(u), n)
+                if n % 2 == 1:
+                    yield "mpz_root 0 %s %x" % (hx(-u), n)
+                    yield "mpz_rootrem %d %s %x" % (rng.randrange(3), hx(-u), n)
+            # index just around the bit length: the last index with root 2 and the first with root 1
+            bl = u.bit_length()
+            for n in (bl - 1, bl, bl + 1, 2 * bl):
+                yield "mpz_root %d %s %x" % (rng.randrange(3), hx(u), n)
+                yield "mpz_rootrem 0 %s %x" % (hx(u), n)
+    # ---- repaired defect f2f94e8: mpn_perfect_square_p on unnormalised vectors (1-3 zero high limbs, all-zero)
+    for l in ([4, 0], [9, 0], [0, 0], [0, 1, 0], [5, 0], [0], [0, 0, 0, 0], [1, 0], [16, 0, 0], [0, 0, 1, 0], [0, 2, 0],
+              [1 << 62, 0], [M, 0], [1, 0, 0, 0]):
+        yield "mpn_perfect_square_p %s" % vec(l)
+    for _ in range(150 if quick else 1500):
+        k = rng.getrandbits(rng.choice([5, 31, 32, 33, 64, 100, 200])) | 1
+        v = (k * k) << (2 * rng.randrange(0, 40))
+        z = rng.randrange(1, 4)
+        for w in (v, v + 1, v - 1, v << 1, v * rng.choice([2, 3, 5, 7])):
+            yield "mpn_perfect_square_p %s" % vec(limbs_of(w) + [0] * z)
+    for v in (pseudo_squares(rng, ctx, 30 if quick else 300) or []):
+        yield "mpn_perfect_square_p %s" % vec(limbs_of(v) + [0] * rng.randrange(1, 4))
     # ---- perfect powers with several prime factors, negative bases, exponent gcd logic of perfpow.c
     small_primes = [2, 3, 5, 7, 11, 13, 997, 1009, 1013, 10007]
     for _ in range(200 if quick else 2000):
@@ -230,6 +264,12 @@ def gen_ops(rng, tier, ctx=None):
         v = k * k << (2 * rng.randrange(0, 70))
         yield "mpn_perfect_square_p %s" % vec(limbs_of(v))
         yield "mpn_perfect_square_p %s" % vec(limbs_of(v << 1))
+
+# whole-file pins of the C the models mirror (fingerprints in pins/C09.json, written by tools/pins.py --update on main)
+PINS = [("mpn/generic/sqrtrem.c", None), ("mpn/generic/rootrem.c", None), ("mpn/generic/rootrem_basecase.c", None),
+        ("mpn/generic/perfect_square_p.c", None), ("mpn/generic/mod_34lsub1.c", None),
+        ("mpz/sqrt.c", None), ("mpz/sqrtrem.c", None), ("mpz/root.c", None), ("mpz/nthroot.c", None), ("mpz/rootrem.c", None),
+        ("mpz/perfsqr.c", None), ("mpz/perfpow.c", None), ("mpir.h", "mpz_perfect_square_p"), ("errno.c", None)]
 
 def nontrivial(line):
     op = line.split(" ", 1)[0]
